@@ -176,10 +176,37 @@ def segName (n : Str) : Prop := n ≠ [] ∧ '/' ∉ n
 def goodName (n : Str) : Prop :=
   n ≠ [] ∧ '/' ∉ n ∧ (∀ c ∈ n, c.toNat < 256) ∧ n.take 4 ≠ ['d', 'a', 'p', '4']
 
-def SVar.ok (v : SVar) : Prop :=
+/-- the two keys pydap itself keeps in a variable's `attributes` dict: `Maps` (always set by
+    `createVariable`) and `path` (set by `dmr_to_dataset` on every member of a group).  A declared attribute
+    of that name is overwritten (`C11_parse_refuted`; open finding `C11.reserved_attribute_name`). -/
+def reservedAttrNames : List Str := ["Maps".toList, "path".toList]
+
+/-- local well-formedness of a variable declaration *without* the guard on reserved attribute names
+    (the property's own domain; `C11_parse_refuted` shows that the parser fails on it) -/
+def SVar.ok0 (v : SVar) : Prop :=
   v.tag ∈ varTags ∧ goodName v.name ∧ (∀ a ∈ v.attrs, a.ok) ∧ (v.attrs.map (·.name)).Nodup
 
-/-- local well-formedness of every declaration -/
+def SVar.ok (v : SVar) : Prop :=
+  v.tag ∈ varTags ∧ goodName v.name ∧ (∀ a ∈ v.attrs, a.ok) ∧ (v.attrs.map (·.name)).Nodup ∧
+  (∀ a ∈ v.attrs, a.name ∉ reservedAttrNames)
+
+/-- local well-formedness of every declaration, reserved attribute names allowed (the property's domain) -/
+def Spec.ok0 : Spec → Prop
+  | .nil => True
+  | .dim n _ rest => segName n ∧ rest.ok0
+  | .var v rest => v.ok0 ∧ rest.ok0
+  | .attr a rest => a.ok ∧ rest.ok0
+  | .group n body rest => goodName n ∧ body.ok0 ∧ rest.ok0
+
+/-- no variable declares an attribute under one of pydap's own keys (`reservedAttrNames`) -/
+def Spec.noReserved : Spec → Prop
+  | .nil => True
+  | .dim _ _ rest => rest.noReserved
+  | .var v rest => (∀ a ∈ v.attrs, a.name ∉ reservedAttrNames) ∧ rest.noReserved
+  | .attr _ rest => rest.noReserved
+  | .group _ body rest => body.noReserved ∧ rest.noReserved
+
+/-- local well-formedness of every declaration (no variable declares an attribute named `Maps` or `path`) -/
 def Spec.ok : Spec → Prop
   | .nil => True
   | .dim n _ rest => segName n ∧ rest.ok
